@@ -460,3 +460,11 @@ def rule_commit(ctx):
 
 
 RULES.append(("C11.j", "branch-commit: between the decision to perform an effect and the effect there is no way out", rule_commit))
+
+
+def rule_deps(ctx):
+    from . import c16
+    c16.rule_c(ctx)
+
+
+RULES.append(("C11.k", "sub-models are registered under parent.child (C16.c): the name reported in Panic / NoRecipient is the qualified one", rule_deps))
